@@ -167,7 +167,8 @@ def emptyDir : Dir := { ms := [], services := [] }
 
 inductive Val
   | str (s : String)
-  | other
+  | null                -- the key is PRESENT and holds nil (JSON null): `Get` returns nil, not its default
+  | other               -- present, some other non-string value (0, false, []string{} …)
   deriving DecidableEq, Repr
 
 abbrev KVs := List (String × Val)
@@ -232,6 +233,7 @@ def applyKey (k dflt : String) : FParam → Option String
     match getKey l k with
     | none => some dflt                       -- the default
     | some (.str s) => some s
+    | some .null => none                      -- key present: `Get` returns the stored nil, `.(string)` panics
     | some .other => none                     -- failed type assertion
 
 /-- result of calling the function; `none` = it panicked.  Evaluations are pure: a
